@@ -334,6 +334,10 @@ func c18Run(c fw.Case) fw.Verdict {
 			return fw.Verdict{Status: fw.Violated, Key: "repeated-close-error", NonTrivial: true, Sig: v.Sig, What: fmt.Sprintf("%s after %s returned %v", p.name, action, r.err)}
 		}
 	}
+	if action != "close-instance" {
+		P.Untrack(sT) // the closed store's buses are no longer accounted for
+		e.H.Rebase()
+	}
 	e.W.WaitIdle(sim.IdleOpts{Watchdog: 10 * time.Second})
 
 	// siblings untouched and writable (store close / drop)
